@@ -63,6 +63,9 @@ def unify(pattern, concrete, out):
     if is_param(pattern):
         out.setdefault(pattern, concrete)
         return
+    if pattern.startswith("impl "):
+        out.setdefault(pattern, concrete)        # anonymous type parameter (`impl Trait` in argument position)
+        return
     ph, pa = head_args(pattern)
     ch, ca = head_args(concrete)
     if ph != ch or len(pa) != len(ca):
@@ -75,6 +78,8 @@ def subst(t, env):
     """replace generic parameter names in type text t by their bindings"""
     if not env:
         return t
+    if t in env and t.startswith("impl "):
+        return env[t]
 
     def rep(m):
         w = m.group(0)
